@@ -24,6 +24,11 @@ Monitors (`gg_` prefix = same oracle on the calls made by GrainGrowthModel):
                   zero elsewhere (|diff_k - J| <= 1e-12 (|f0_k| + J); other classes exactly at rounding level of
                   their own fluxes)
      nuc_total    fsum(f(J,Rn) - f(0,Rn)) = J for every Rn, also outside the grid
+     nuc_same_class   getdXdtEuler and correctdXdtEuler (each reduced by its reference transport part) leave J in
+                  exactly one class, the same for both, for every Rn
+     nuc_above_last   for Rn >= b_n that class is the last one
+     correct_noop_equal  when no reference face flux exceeds its donor, the corrected rate equals the uncorrected one
+     nuc_extends_grid Rn >= b_n, >= 10 nuclei per step: every step of the explicit update sequence extends the grid
  (d) face_bound   after correctdXdtEuler(dt, ...): for every face of the observed `_netFlux`,
                   |Phi_j| dt <= N_donor (1 + 1e-12), donor = class the flux leaves (sign of Phi_j)
                   (all flux tolerances carry an absolute allowance of 1e-300 /s: populations in the subnormal range,
@@ -37,8 +42,16 @@ Monitors (`gg_` prefix = same oracle on the calls made by GrainGrowthModel):
      no_exception the four calls do not raise on admissible input
 
 Decisions where the statement is silent (not asserted, only counted):
- * Rn outside [b_0, b_n) (below, above, == b_n): the statement names no containing class.  Only nuc_total / total
-   are asserted; the receiving class is recorded (observed: the last class, also for Rn below the grid).
+ * Rn below b_0: the statement names no containing class.  Only nuc_total / total are asserted and that
+   getdXdtEuler and correctdXdtEuler agree on the receiving class (nuc_same_class); the class itself is recorded
+   (observed: the last class, index -1 wrap-around).
+ * Rn >= b_n (upper bound exactly, slightly above, 1.5x, 3x, 40x, random): no class contains it either, but nuclei
+   must not enter a class that lies entirely below the nucleation radius while a higher class exists, and the
+   documented grid extension (adjustSizeClassesEuler adds classes once the last class fills) relies on them
+   entering the last class.  Decision of the coordinator after a seeded change was missed: the receiving class
+   must be the last one, in both routines (nuc_local, ref_dxdt, ref_correct, nuc_above_last), and a short
+   getdXdtEuler -> correctdXdtEuler -> UpdatePBMEuler -> adjustSizeClassesEuler sequence must extend the grid
+   (nuc_extends_grid).
  * Rn exactly on an interior boundary b_k: which of the classes k-1, k "contains" it is a convention; either one
    is accepted (exactly one class must receive J).  Rn == b_0 belongs to class 0.
  * getDTEuler: the docstring says the passed-in step "will be returned if it's smaller" than the constraint; the
@@ -70,13 +83,14 @@ LEVEL = 'exploration'
 RULE = ('direct cases: a bundle of random inputs (grid 1-200 classes incl. cMin=0 and extended grids; distribution '
         'empty/single/sparse/log-normal/1e-3..1e25 range/sub-unit/uniform; growth field physical A(1/Rc-1/R)/R, '
         'alternating, with zeros, one-signed, all zero, linear sign change, spiky; J in {0, 1e-3..1e30}; Rn inside/'
-        'on a boundary/b_0/b_n/below/above; dt = limit, limit*1e-6..1e6, 1e-6..1e6 s; ratio default/0.05-0.5/0.5/'
+        'on a boundary/b_0/b_n/below/above (slightly, 1.5x, 3x, 40x, random); dt = limit, limit*1e-6..1e6, 1e-6..1e6 s; ratio default/0.05-0.5/0.5/'
         '0.5-1) pushed through getDissolutionIndex, getDTEuler, getdXdtEuler(J=0), getdXdtEuler(J), correctdXdtEuler; '
         'grain-growth cases: GrainGrowthModel.solve (Euler and RK4, with/without Zener pinning) with the four PBM '
         'methods wrapped. An input is non-trivial when >= 2 classes are populated and the growth field changes sign '
         'or J > 0; a case is non-trivial when >= 25 % of its inputs (direct) / recorded getdXdtEuler calls (grain '
         'growth) are; distinct by (kind, block, seed).')
 REQUIRED_MONITORS = ['ref_dxdt', 'ref_flux', 'ref_correct', 'total', 'end_signs', 'nuc_local', 'nuc_total',
+                     'nuc_same_class', 'nuc_above_last', 'correct_noop_equal', 'nuc_extends_grid',
                      'face_bound', 'nonneg', 'dt_limit', 'diss_index',
                      'gg_ref_dxdt', 'gg_ref_correct', 'gg_total', 'gg_face_bound', 'gg_nonneg', 'gg_dt_limit',
                      'gg_diss_index']
@@ -84,6 +98,7 @@ REACH = ['precipitation/PopulationBalance.py:PopulationBalanceModel.getdXdtEuler
          'precipitation/PopulationBalance.py:PopulationBalanceModel.correctdXdtEuler',
          'precipitation/PopulationBalance.py:PopulationBalanceModel.getDTEuler',
          'precipitation/PopulationBalance.py:PopulationBalanceModel.getDissolutionIndex',
+         'precipitation/PopulationBalance.py:PopulationBalanceModel.adjustSizeClassesEuler',
          'precipitation/coupling/GrainGrowth.py:GrainGrowthModel.getdXdt',
          'precipitation/coupling/GrainGrowth.py:GrainGrowthModel.correctdXdt',
          'precipitation/coupling/GrainGrowth.py:GrainGrowthModel.getDt']
@@ -156,7 +171,11 @@ def _ref_class(b, Rn):
 def _rn_allowed(b, Rn):
     k = _ref_class(b, Rn)
     if k is None:
-        return 'outside', None
+        if Rn >= b[-1]:
+            # at/above the upper end: the only class that does not lie entirely below a class nearer to Rn is the
+            # last one (this is what lets adjustSizeClassesEuler extend the grid on nucleation)
+            return 'above', (len(b) - 2,)
+        return 'below', None
     if Rn == b[k] and k >= 1:
         return 'boundary', (k - 1, k)
     return 'inside', (k,)
@@ -228,7 +247,7 @@ def check_getdxdt(R, pfx, lab, b, G, N, J, Rn, out, nf):
         R.check(pfx + 'ref_dxdt', not bad, _mech(lab, func, J=jlab, rn=rnkind),
                 bounds=b, growth=G, psd=N, J=J, Rn=Rn, returned=o, reference=[phi[i] - phi[i + 1] for i in range(n)],
                 bad_classes=bad[:10])
-    elif rnkind == 'inside':
+    elif rnkind in ('inside', 'above'):
         k = allowed[0]
         bad = []
         for i in range(n):
@@ -280,12 +299,14 @@ def check_nucleation(R, pfx, lab, b, G, N, J, Rn, d0, dJ, phi):
     else:
         R.check(pfx + 'nuc_total', okt, _mech(lab, 'getdXdtEuler', rn=rnkind, rn_detail=lab.get('rn')),
                 bounds=b, Rn=Rn, J=J, sum_difference=math.fsum(diff), receivers=recv[:10])
-    if allowed is None:
+    if allowed is None:     # Rn below the grid: receiving class only recorded
         if len(recv) == 1:
-            R.observe('outside_recv_last' if recv[0] == n - 1 else ('outside_recv_first' if recv[0] == 0 else 'outside_recv_other'))
+            R.observe('below_recv_last' if recv[0] == n - 1 else ('below_recv_first' if recv[0] == 0 else 'below_recv_other'))
         else:
-            R.observe('outside_recv_%d_classes' % min(len(recv), 2))
+            R.observe('below_recv_%d_classes' % min(len(recv), 2))
         return
+    if rnkind == 'above' and recv == [n - 1]:
+        R.observe('above_recv_last')
     if rnkind == 'boundary' and len(recv) == 1:
         R.observe('boundary_recv_upper' if recv[0] == allowed[1] else 'boundary_recv_lower')
     if okl and not decl:
@@ -392,6 +413,114 @@ def check_correct(R, pfx, lab, b, G, N, J, Rn, dt, ratio, out, nf, consistent, p
             R.count(pfx + 'nonneg', nobey - 1)
         else:
             R.count(pfx + 'nonneg', nobey)
+
+
+def check_nuc_agreement(R, pfx, lab, b, N, J, Rn, phi, dJ, dt, dc):
+    """Where do the nuclei go before (getdXdtEuler) and after (correctdXdtEuler) the correction?  Both rates are
+    reduced by their reference transport part; what is left must be J in one and the same class."""
+    n = len(N)
+    rnkind, allowed = _rn_allowed(b, Rn)
+    g = [float(v) for v in dJ]
+    c = [float(v) for v in dc]
+    lim = _ref_limit(phi, N, dt)
+    res_g = [g[i] - (phi[i] - phi[i + 1]) for i in range(n)]
+    res_c = [c[i] - (lim[i] - lim[i + 1]) for i in range(n)]
+    tol_g = [TOL * (abs(phi[i]) + abs(phi[i + 1]) + abs(g[i])) + TINY for i in range(n)]
+    tol_c = [TOL * (abs(lim[i]) + abs(lim[i + 1]) + abs(c[i])) + TINY for i in range(n)]
+    if not J > 100.0 * max(max(tol_g), max(tol_c)):
+        R.observe('nuc_agreement_undecidable')   # J below 100x the rounding level of some class's exchange fluxes
+        return
+    rg = [i for i in range(n) if abs(res_g[i]) > tol_g[i]]
+    rc = [i for i in range(n) if abs(res_c[i]) > tol_c[i]]
+    one_g = len(rg) == 1 and abs(res_g[rg[0]] - J) <= tol_g[rg[0]] + TOL * J
+    one_c = len(rc) == 1 and abs(res_c[rc[0]] - J) <= tol_c[rc[0]] + TOL * J
+    mech = _mech(lab, 'getdXdtEuler/correctdXdtEuler', rn=rnkind, rn_detail=lab.get('rn'))
+    R.check(pfx + 'nuc_same_class', one_g and one_c and rg == rc, mech, bounds=b, Rn=Rn, J=J, dt=dt,
+            receivers_getdXdtEuler=rg[:10], receivers_correctdXdtEuler=rc[:10], psd=N)
+    if rnkind == 'above':
+        bad = [f for f, r in (('getdXdtEuler', rg), ('correctdXdtEuler', rc)) if r != [n - 1]]
+        R.check(pfx + 'nuc_above_last', not bad,
+                _mech(lab, '+'.join(bad) if bad else 'getdXdtEuler/correctdXdtEuler', rn=rnkind, rn_detail=lab.get('rn')),
+                bounds=b, Rn=Rn, J=J, last_class=n - 1, receivers_getdXdtEuler=rg[:10], receivers_correctdXdtEuler=rc[:10])
+    elif rnkind == 'below':
+        for f, r in (('get', rg), ('correct', rc)):
+            if len(r) == 1:
+                R.observe('below_%s_recv_%s' % (f, 'last' if r[0] == n - 1 else ('first' if r[0] == 0 else 'other')))
+
+
+def check_noop(R, pfx, lab, b, G, N, J, Rn, phi, d, dt, dc):
+    """Nothing to correct (no reference face flux exceeds its donor): the corrected rate equals the uncorrected one."""
+    n = len(N)
+    if _ref_limit(phi, N, dt) != phi:
+        return
+    g = [float(v) for v in d]
+    c = [float(v) for v in dc]
+    bad = [i for i in range(n) if not abs(c[i] - g[i]) <= TOL * (abs(phi[i]) + abs(phi[i + 1]) + abs(g[i])) + TINY]
+    rnkind, _ = _rn_allowed(b, Rn)
+    R.check(pfx + 'correct_noop_equal', not bad, _mech(lab, 'correctdXdtEuler', rn=rnkind, J='pos' if J > 0 else 'zero'),
+            bounds=b, growth=G, psd=N, J=J, Rn=Rn, dt=dt, classes=bad[:10], uncorrected=[g[i] for i in bad[:10]],
+            corrected=[c[i] for i in bad[:10]])
+
+
+def run_extension_sequence(R, rng):
+    """Nucleation at/above the upper end of the grid, a few explicit steps with the corrected rate followed by
+    UpdatePBMEuler + adjustSizeClassesEuler: the nuclei fill the last class, so the grid must be extended."""
+    from kawin.precipitation import PopulationBalanceModel
+    bins = int(rng.integers(4, 120))
+    cmin = _logu(rng, -10, -8)
+    cmax = cmin * float(rng.uniform(10, 100))
+    pbm = PopulationBalanceModel(cmin, cmax, bins=bins, minBins=max(2, bins // 2), maxBins=100 * bins)
+    top = float(pbm.PSDbounds[-1])
+    Rn = [top, float(np.nextafter(top, np.inf)), top * (1 + 1e-7), 1.5 * top, 3.0 * top, 40.0 * top][int(rng.integers(0, 6))]
+    populated = rng.random() < 0.5
+    with_growth = rng.random() < 0.5
+    lab = {'pfx': '', 'path': 'extension', 'dist': 'lognormal' if populated else 'empty',
+           'growth': 'physical' if with_growth else 'allzero', 'rn': 'above'}
+    psd = np.zeros(bins)
+    if populated:
+        c = pbm.PSDsize
+        psd = _logu(rng, 3, 15) * np.exp(-0.5 * ((c - c[bins // 3]) / (0.15 * (c[-1] - c[0]))) ** 2)
+        psd[-max(1, bins // 4):] = 0.0          # upper quarter empty: only nucleation can fill the last class
+    pbm.PSD = np.array(psd)
+    t = 0.0
+    for step in range(3):
+        b = np.array(pbm.PSDbounds, dtype=float)
+        n = int(pbm.bins)
+        N = np.array(pbm.PSD, dtype=float)
+        if Rn < b[-1]:
+            R.observe('extension_grid_reached_rn')
+            break
+        if with_growth:
+            rc = float(rng.uniform(b[0], b[-1]))
+            G = 1e-9 * (0.5 * (b[0] + b[-1])) ** 2 * (1.0 / rc - 1.0 / b) / b
+        else:
+            G = np.zeros(n + 1)
+        ok, dt = _call(R, lab, 'getDTEuler', pbm.getDTEuler, 1.0, G.copy(), 0)
+        if not ok:
+            return
+        dt = float(dt)
+        J = 10.0 / dt * _logu(rng, 0, 6)                # at least 10 nuclei per step
+        ok, d = _call(R, lab, 'getdXdtEuler', pbm.getdXdtEuler, G.copy(), J, Rn, N.copy())
+        if not ok:
+            return
+        ok, dc = _call(R, lab, 'correctdXdtEuler', pbm.correctdXdtEuler, dt, G.copy(), J, Rn, N.copy())
+        if not ok:
+            return
+        newN = N + dt * np.array(dc, dtype=float)
+        oldbins, oldtop = n, float(b[-1])
+        t += dt
+        try:
+            pbm.UpdatePBMEuler(t, newN.copy())
+            pbm.adjustSizeClassesEuler()
+        except Exception:
+            R.observe('extension_aborted_in_grid_update')   # grid bookkeeping is C08's subject
+            return
+        grown = int(pbm.bins) > oldbins and float(pbm.PSDbounds[-1]) > oldtop
+        R.check('nuc_extends_grid', grown, _mech(lab, 'correctdXdtEuler+adjustSizeClassesEuler'),
+                bounds_before=b, Rn=Rn, J=J, dt=dt, psd_before=N, new_population=newN, bins_before=oldbins,
+                bins_after=int(pbm.bins), upper_before=oldtop, upper_after=float(pbm.PSDbounds[-1]), step=step)
+        if not grown:
+            return
 
 
 def check_dtlimit(R, pfx, lab, b, G, N, di, ratio, passed, got):
@@ -560,26 +689,35 @@ def gen_growth(rng, b):
 def gen_rn(rng, b):
     n = len(b) - 1
     u = rng.random()
-    if u < 0.45:
+    top = b[n]
+    if u < 0.38:
         k = int(rng.integers(0, n))
         r = b[k] + (b[k + 1] - b[k]) * rng.uniform(0.01, 0.99)
         if b[k] < r < b[k + 1]:
             return 'inside', float(r)
         return 'b0', float(b[0])
-    if u < 0.60 and n >= 2:
+    if u < 0.50 and n >= 2:
         return 'boundary', float(b[int(rng.integers(1, n))])
-    if u < 0.68:
+    if u < 0.56:
         return 'b0', float(b[0])
+    if u < 0.62:
+        return 'bn', float(top)
     if u < 0.74:
-        return 'bn', float(b[n])
-    if u < 0.87:
         v = rng.random()
         if v < 0.5 and b[0] > 0:
             return 'below', float(b[0] * rng.uniform(0.0, 0.999))
         if v < 0.75:
             return 'below', 0.0 if b[0] > 0 else -1e-10
         return 'below', -float(_logu(rng, -11, -7))
-    return 'above', float(b[n] * rng.uniform(1.001, 10.0))
+    if u < 0.80:
+        return 'above', float(top * rng.uniform(1.001, 10.0))
+    if u < 0.85:
+        return 'above_slight', float(np.nextafter(top, np.inf)) if rng.random() < 0.5 else float(top * (1 + 1e-7))
+    if u < 0.90:
+        return 'above_1.5x', float(1.5 * top)
+    if u < 0.95:
+        return 'above_3x', float(3.0 * top)
+    return 'above_40x', float(40.0 * top)
 
 
 def _call(R, lab, name, fn, *args, **kw):
@@ -698,8 +836,14 @@ def run_direct(case, R):
         if not ok:
             continue
         nfc = getattr(pbm, '_netFlux', None)
-        check_correct(R, '', lab, b, G, N, J, Rn, dt, own_ratio, np.array(dc, dtype=float),
+        dc = np.array(dc, dtype=float)
+        check_correct(R, '', lab, b, G, N, J, Rn, dt, own_ratio, dc,
                       None if nfc is None else np.array(nfc, dtype=float), True, phi)
+        check_noop(R, '', lab, b, G, N, J, Rn, phi, dJ if J > 0 else d0, dt, dc)
+        if J > 0:
+            check_nuc_agreement(R, '', lab, b, N, J, Rn, phi, dJ, dt, dc)
+    for it in range(max(4, ninputs // 25)):
+        run_extension_sequence(R, rng)
     R.observe('inputs', ninputs)
     R.observe('nontrivial_inputs', nt)
     R.set_nontrivial(nt >= 0.25 * ninputs, 'direct:%d:%d' % (case['block'], case['seed']))
@@ -882,6 +1026,7 @@ MANIFEST = {
             'face-by-face scalar reference (conservation with end-face fluxes, upwind donors, nucleation locality, per-face '
             'donor bound, non-negativity of classes obeying the limit). Sampled, not exhaustive.',
     'note': 'trusted: numpy, the scalar reference in checks/c07.py; face fluxes after correction are read from the anchored '
-            'attribute _netFlux; nuclei outside the grid / on a class boundary: only what the statement fixes is asserted',
+            'attribute _netFlux; nuclei below the grid: receiving class only recorded (both routines must agree); nuclei at/above the '
+            'upper bound must enter the last class; on a class boundary either neighbour is accepted',
     'technique': 'reference-model and metamorphic monitors on the inputs/outputs of the public population-balance methods',
 }
